@@ -1057,6 +1057,19 @@ lua_statements = [
         ],
     ),
     #####
+    # char
+    dict(
+        name="lua_char_*_in",
+        base="lua_string_*_in",
+    ),
+    dict(
+        name="lua_char_*_result",
+        mixin=[
+            "lua_mixin_callfunction",
+            "lua_mixin_push"
+        ],
+    ),
+    #####
     # shadow
     dict(
         name="lua_shadow_ctor",
